@@ -236,6 +236,31 @@ theorem c12_impl_values_opaque_partial (cfg cfg' : Cfg) (hE : EnvSim cfg cfg') (
 -- `c12_tok_eq_spec_brace_free_values` without `hbf` — "text that enters the output through a bound value, loop item or
 -- default is emitted verbatim and is never itself re-interpreted as template syntax".
 
+/-! ### a positive result inside the hostile region: templates of text and plain variables -/
+
+/-- PARTIAL, WITH CONTENT FOR HOSTILE VALUES.  For every template that consists of text and plain variables only
+    (`Hello {{name}}, you have {{count}} messages` — the shape of the library's own examples), for EVERY context —
+    values containing `{{other}}`, `{{>include}}`, `{{#if …}}`, braces of any kind — and in both modes: the string
+    layer (the model of the code) renders exactly the one left-to-right expansion: the text with each bound `{{name}}`
+    replaced by `str(value)` verbatim, unbound slots left in place and warned about (twice: once by the required-variable
+    scan, once by the variable pass), strict mode failing iff a slot is unbound.  No value is looked at again after it
+    has been spliced in.  (The open finding needs a block, an include, an optional / defaulted / filtered variable or a
+    second pass over the spliced text: see the witness below.) -/
+theorem c12_plain_templates_values_verbatim (cfg : Cfg) (hs : CfgSane2 cfg) (reg : SReg) (ctx : Ctx) (fuel : Nat)
+    (ts : List Tok) (hpl : ∀ t ∈ ts, t.plain = true) (hw : ∀ t ∈ ts, t.wfs cfg) :
+    translate cfg ctx (fuel + 1) (printToks ts) =
+      (let miss := (varNames ts).filter (fun n => !isBound ctx n)
+       if cfg.strict && !miss.isEmpty then .error .value
+       else .ok (ts.flatMap (emitPlain ctx), miss ++ miss)) ∧
+    (renderSpec cfg cfg.strict reg ctx (fuel + 1) (ts.map Seg.tok)).toOption
+      = (translate cfg ctx (fuel + 1) (printToks ts)).toOption.map (·.1) := by
+  have h1 := translate_plain cfg hs ctx fuel ts hpl hw
+  refine ⟨h1, ?_⟩
+  obtain ⟨o, ho, hp, hm⟩ := specToks_plain cfg reg ctx fuel ts hpl
+  rw [h1]
+  simp only [renderSpec, ho, hm, hp]
+  split <;> rfl
+
 /-! ### the witness: a loop item that is re-interpreted -/
 
 def wCfg : Cfg :=
@@ -687,6 +712,16 @@ example : (specToks eCfg eReg eCtx 3 [.tok (.inc [116, 48])]).toOption.map specM
 example : WordName eCfgS [110, 111, 112, 101] ∧ lookup [110, 111, 112, 101] (tokReg eReg) = none ∧
     (translate eCfgS eCtx 3 (INCH ++ [110, 111, 112, 101] ++ RR)).toOption = some ([91, 63, 110, 111, 112, 101, 93], []) :=
   ⟨WordName_of_bool (by decide), by decide, by decide⟩
+
+/-- `c12_plain_templates_values_verbatim` on hostile data: `Hi {{a}}!{{zz}}` with `a = "{{>t0}}{{#if f}}x{{/if}}{{b|up}}"`
+    renders the value as it stands (a test of the concrete instance; the hypotheses are the two `decide`d facts) -/
+example :
+    let hostile : Str := INCH ++ [116, 48] ++ RR ++ IFH ++ [32, 102] ++ RR ++ [120] ++ ENDIF ++ pipeTag [98] [117, 112]
+    let ts : List Tok := [.text [72, 105, 32], .var [97], .text [33], .var [122, 122]]
+    (∀ t ∈ ts, t.plain = true) ∧ (∀ t ∈ ts, t.wfs eCfgS) ∧
+    (translate eCfgS [([97], ⟨hostile, true, none⟩)] 3 (printToks ts)).toOption
+      = some ([72, 105, 32] ++ hostile ++ [33] ++ tagOf [122, 122], [[122, 122], [122, 122]]) :=
+  ⟨by decide, wfs_all_of_bool (by decide), by decide⟩
 
 /-- the hypotheses of `c12_str_eq_spec_brace_free_values` hold for the template with every kind of construct, and the
     string layer renders `U` `p{{k}}0;` `qv1;` `<x{{zz}}>` `[?nope]` `dflt` -/
